@@ -168,7 +168,7 @@ func Exp10(d Decimal) Decimal {
 			exp--
 		}
 
-		if dSigInt > maxUnbiasedExponent+58 {
+		if dSigInt > exponentBias+1 {
 			if d.Signbit() {
 				return zero(false)
 			}
@@ -193,19 +193,10 @@ func Exp10(d Decimal) Decimal {
 	var res decomposed192
 	var trunc int8
 
-	var sigInt uint128
-	var expInt int16
-
-	if dSigInt != 0 {
-		sigInt = uint128{1, 0}
-
-		for dSigInt > maxUnbiasedExponent {
-			sigInt = sigInt.mul64(10)
-			dSigInt--
-		}
-
-		expInt = int16(dSigInt)
-	}
+	// The integer part of d becomes the exponent of the result directly. It is
+	// at most maxUnbiasedExponent+58 here, and the reduction below handles
+	// exponents above the largest one by lengthening the coefficient.
+	expInt := int16(dSigInt)
 
 	if dSig[0]|dSig[1] != 0 {
 		res, trunc = decomposed192{
@@ -233,11 +224,7 @@ func Exp10(d Decimal) Decimal {
 		}
 	}
 
-	if res.exp > maxUnbiasedExponent+58 {
-		if d.Signbit() {
-			return zero(false)
-		}
-
+	if !d.Signbit() && res.exp > maxUnbiasedExponent+58 {
 		return inf(false)
 	}
 
